@@ -8,7 +8,7 @@ func init() {
 		ID: "C04", Level: "exploration",
 		Rule: "generated histories in which ~25% of the slots re-deliver earlier transaction bytes (same block, next block, much later) and ~4% carry nonce+1 / nonce-1 / a foreign chain id; the monitor keeps, per sender, the last nonce it SAW accepted and judges every delivery against the sequential specification (accept only nonce=last+1 and own chain id; never the same bytes twice), cross-checking GetNonce; one evaluation = one delivery judged; distinct = (freshness class, chain, multisig, response code)",
 		Assumptions: []string{"only harness-made (non-mutated) transactions are judged: their sender/nonce/chain id are ground truth of the generator, not decoded by the node"},
-		Quick: 42, Thorough: 1500, MinEval: 5000, MinDistinct: 8,
+		Quick: 42, Thorough: 420, MinEval: 5000, MinDistinct: 8,
 		Run: func(ctx *WorkCtx, idx int) {
 			r := Rng(ctx.Seed, "C04", idx)
 			sc := StdScenario(idx, r, 100)
@@ -30,7 +30,7 @@ func init() {
 		ID: "C26", Level: "exploration",
 		Rule: "generated histories in which ~30% of the slots re-deliver earlier transaction bytes; per distinct byte string the monitor reads the payer's balances (all coins) around every delivery: every delivery after the first must be rejected and must not decrease any balance of the payer; one evaluation = one repeated delivery judged; distinct = (kind of first delivery: accepted / failed before Run / failed in Run) x (later code, charged?, tx type)",
 		Assumptions: []string{"payer = sender, or the check issuer for RedeemCheck (known to the generator)"},
-		Quick: 42, Thorough: 1500, MinEval: 3000, MinDistinct: 20,
+		Quick: 42, Thorough: 420, MinEval: 3000, MinDistinct: 20,
 		Run: func(ctx *WorkCtx, idx int) {
 			r := Rng(ctx.Seed, "C26", idx)
 			sc := StdScenario(idx, r, 100)
@@ -52,7 +52,7 @@ func init() {
 		ID: "C03", Level: "exploration",
 		Rule: "generated histories with 35% invalid and 25% boundary transactions of all types, gas coins of every kind (base, bancor coin, token with pool, coin with both routes) and payers with balance 0 / < fee / = fee / > fee; around every DeliverTx the universe (all known addresses x coins: balances, nonces, waitlists; coins; pools; orders; candidates; stakes) is read through accessors; a failed tx may only change the payer's gas-coin balance by exactly tx.fail_fee and what converting that fee touches (commission pool reserves/orders/owners' credits/burn address, or bancor volume/reserve); an accepted tx must raise the sender nonce by exactly one; one evaluation = one failed DeliverTx diffed; distinct = (tx type, code, fee route)",
 		Assumptions: []string{"frozen funds / votes / checks are not part of the accessor snapshot; they are covered by the per-block export comparison in the counterfactual tier"},
-		Quick: 42, Thorough: 1500, MinEval: 3000, MinDistinct: 60,
+		Quick: 42, Thorough: 420, MinEval: 3000, MinDistinct: 60,
 		Run: func(ctx *WorkCtx, idx int) {
 			r := Rng(ctx.Seed, "C03", idx)
 			sc := StdScenario(idx, r, 100)
